@@ -108,7 +108,7 @@ func cmdFunc(args []string) int {
 	bad := 0
 	for _, k := range prog.contracts.Order {
 		fs := prog.contracts.Funcs[k]
-		if fs.Kind != "func" {
+		if fs.Kind != "func" || fs.Trusted != "" {
 			continue
 		}
 		if *key != "" && fs.Key != *key {
@@ -211,7 +211,7 @@ func expandImplements(prog *Prog, fs *FuncSpec, fi *FuncInfo) (*FuncSpec, error)
 	var ifs *FuncSpec
 	for _, k := range prog.contracts.Order {
 		c := prog.contracts.Funcs[k]
-		if c.Kind == "iface" && (c.Key == fs.Implements || shortPkg(c.PkgPath)+"."+c.Key == fs.Implements || c.PkgPath+"."+c.Key == fs.Implements) {
+		if (c.Kind == "iface" || c.Kind == "assume") && (c.Key == fs.Implements || shortPkg(c.PkgPath)+"."+c.Key == fs.Implements || c.PkgPath+"."+c.Key == fs.Implements) {
 			ifs = c
 			break
 		}
